@@ -10,7 +10,8 @@ Rec(b) == [sp |-> b.sp, cut2 |-> b.cut2, pos |-> b.pos,
            nheavy |-> NHeavy(b), nhydro |-> NHydro(b), nocc |-> NOcc(b), odd |-> OddRow(b)]
 Collect == TLCSet(2, TLCGet(2) \cup {Rec(B)})
 Export  == ndJsonSerialize(IOEnv.OUT_FILE, SetToSeq(TLCGet(2)))
+PackMax == 5      \* the pack map is exported for molecules of up to PackMax atoms (independent of the batch lattice)
 PackTable == [nh \in 0..MaxSize |-> [ny \in 0..MaxSize |-> [u \in 0..(4 * MaxSize - 1) |-> PackIdx(nh, ny, u)]]]
-ExportPack == ndJsonSerialize(IOEnv.OUT_FILE2, <<[t |-> [nh \in 1..(MaxSize + 1) |-> [ny \in 1..(MaxSize + 1) |-> [u \in 1..(4 * MaxSize) |-> PackIdx(nh - 1, ny - 1, u - 1)]]]]>>)
+ExportPack == ndJsonSerialize(IOEnv.OUT_FILE2, <<[t |-> [nh \in 1..(PackMax + 1) |-> [ny \in 1..(PackMax + 1) |-> [u \in 1..(4 * PackMax) |-> PackIdx(nh - 1, ny - 1, u - 1)]]]]>>)
 Post == Export /\ ExportPack
 =============================================================================
